@@ -115,7 +115,7 @@ func (e *Exec) unsupported(msg string) {
 			where += " at " + e.P.Fset.Position(in.Pos()).String() + " [" + in.String() + "]"
 		}
 	}
-	panic(EngineError{Msg: "unsupported: " + msg + where})
+	panic(EngineError{Msg: "unsupported: " + msg + where + " | stack: " + e.where()})
 }
 
 func (e *Exec) top() *Frame { return e.cur.Stack[len(e.cur.Stack)-1] }
